@@ -14,6 +14,8 @@ pub struct Report {
 	pub case_type: &'static str,
 	pub check_fn: &'static str,
 	pub cases: Vec<String>,
+	/// cases that get a shard of their own (large sweeps evaluated in parallel)
+	pub big_cases: Vec<String>,
 	pub evaluations: u64,
 	distinct: HashSet<u64>,
 	pub nontrivial: u64,
@@ -30,7 +32,7 @@ pub struct Report {
 
 impl Report {
 	pub fn new(prop: &'static str, run_module: &'static str) -> Report {
-		Report { prop, run_module, case_type: "case", check_fn: "check", cases: vec![], evaluations: 0, distinct: HashSet::new(),
+		Report { prop, run_module, case_type: "case", check_fn: "check", cases: vec![], big_cases: vec![], evaluations: 0, distinct: HashSet::new(),
 			nontrivial: 0, samples: vec![], dist: BTreeMap::new(), violations: vec![], known: vec![],
 			rule: String::new(), notes: vec![], shard_size: 1000, exhaustive: false, enumerated: 0 }
 	}
@@ -62,6 +64,11 @@ impl Report {
 		self.count(&key);
 		self.cases.push(term);
 	}
+	/// a large case evaluated in a shard of its own
+	pub fn big_case(&mut self, stream: &str, term: String) {
+		self.count(&format!("stream:{stream}"));
+		self.big_cases.push(term);
+	}
 	pub fn violation(&mut self, what: String, replay: String) {
 		if self.violations.len() < 50 { self.violations.push(Violation { what, replay }); }
 	}
@@ -71,7 +78,9 @@ impl Report {
 		std::fs::create_dir_all(out)?;
 		for e in std::fs::read_dir(out)? { let p = e?.path(); if p.is_file() { std::fs::remove_file(p)?; } }
 		let mut shards = vec![];
-		for (k, chunk) in self.cases.chunks(self.shard_size.max(1)).enumerate() {
+		let singles: Vec<&[String]> = self.big_cases.iter().map(std::slice::from_ref).collect();
+		let chunks: Vec<&[String]> = self.cases.chunks(self.shard_size.max(1)).chain(singles.into_iter()).collect();
+		for (k, chunk) in chunks.into_iter().enumerate() {
 			let name = format!("shard_{k:04}");
 			let mut f = std::io::BufWriter::new(std::fs::File::create(out.join(format!("{name}.v")))?);
 			writeln!(f, "From FB Require Import {}.", self.run_module)?;
@@ -89,7 +98,7 @@ impl Report {
 			"evaluations": self.evaluations,
 			"distinct_nontrivial": self.nontrivial,
 			"distinct": self.distinct.len() as u64 + self.enumerated,
-			"correspondence_cases": self.cases.len(),
+			"correspondence_cases": self.cases.len() + self.big_cases.len(),
 			"rule": self.rule,
 			"samples": self.samples,
 			"distribution": self.dist,
